@@ -7,35 +7,57 @@
 From KG Require Import Prelude C03_Model C03_Proofs.
 Open Scope Z_scope.
 
-(* A forwarded request goes to an endpoint that is in the server list of the last sync, is in the
-   matched policy's subset when one is given, is enabled in that spec, and whose EndpointInfo is enabled
-   and healthy in the state at the pick.  Same for Pop on a picker captured earlier (stale pickers):
-   the endpoint is among the upstreams MatchAttributes captured, which are the policy's subset when given. *)
+(* A forwarded request goes to an endpoint of a cluster that exists, that is in the server list of the
+   last sync, in the matched policy's subset when one is given, enabled in that spec, and whose
+   EndpointInfo is enabled and healthy in the state at the pick.  Same for Pop on a picker captured
+   earlier: the picker's ClusterInfo is the object the manager holds now (not a stopped one), the endpoint
+   is among the upstreams MatchAttributes captured, which are the policy's subset when given. *)
 Theorem C03_pick_sound : forall rc ms,
   let s := run_micro rc init ms in
   (forall p choice id, In (EContact id) (snd (micro rc s (MRequest p choice))) ->
-     wanted (servers s) id = true /\ dis_in (servers s) id = false /\ subset_given s p id
-     /\ exists i, find_live (incs s) id = Some i /\ disabled i = false /\ healthy i = true)
+     cexists s = true /\ wanted (servers s) id = true /\ dis_in (servers s) id = false /\ subset_given s p id
+     /\ exists i, find_live (incs s) (cgen s) id = Some i /\ disabled i = false /\ healthy i = true)
   /\ (forall slot choice id, In (EPick id) (snd (micro rc s (MPop slot choice))) ->
-     exists ups, zlook slot (pickers s) = Some ups /\ In id ups
+     exists c ups, zlook slot (pickers s) = Some (c, ups) /\ In id ups
+     /\ cexists s = true /\ c = cgen s
      /\ wanted (servers s) id = true /\ dis_in (servers s) id = false
-     /\ exists i, find_live (incs s) id = Some i /\ disabled i = false /\ healthy i = true)
-  /\ (forall p slot, zlook slot (pickers (fst (micro rc s (MMatch p slot)))) = upstreams_of s p)
+     /\ exists i, find_live (incs s) (cgen s) id = Some i /\ disabled i = false /\ healthy i = true)
+  /\ (forall p slot, cexists s = true ->
+        zlook slot (pickers (fst (micro rc s (MMatch p slot)))) = option_map (fun ups => (cgen s, ups)) (upstreams_of s p))
   /\ (forall p ups id, upstreams_of s p = Some ups -> In id ups -> subset_given s p id).
 Proof. exact pick_sound. Qed.
 Print Assumptions C03_pick_sound.
 
-(* When none of the candidate upstreams is present, enabled and healthy, Pop fails and the dispatcher
-   answers 503; the state is unchanged and nothing is contacted. *)
+(* When none of the candidate upstreams is present, not stopped, enabled and healthy, Pop fails and the
+   dispatcher answers 503; the state is unchanged and nothing is contacted. *)
 Theorem C03_pick_complete : forall rc s,
-  (forall p choice ups, upstreams_of s p = Some ups ->
-     (forall id i, In id ups -> find_live (incs s) id = Some i -> is_ready i = false) ->
+  (forall p choice ups, cexists s = true -> upstreams_of s p = Some ups ->
+     (forall id i, In id ups -> find_live (incs s) (cgen s) id = Some i -> is_ready i = false) ->
      micro rc s (MRequest p choice) = (s, [ENone; E503]))
-  /\ (forall slot choice ups, zlook slot (pickers s) = Some ups ->
-     (forall id i, In id ups -> find_live (incs s) id = Some i -> is_ready i = false) ->
+  /\ (forall slot choice c ups, zlook slot (pickers s) = Some (c, ups) ->
+     (forall id i, In id ups -> find_live (incs s) c id = Some i -> negb (stopped s c) && is_ready i = false) ->
      micro rc s (MPop slot choice) = (s, [ENone])).
 Proof. exact pick_complete. Qed.
 Print Assumptions C03_pick_complete.
+
+(* Stale handles.  (1) In any state: Pop on a picker, and PickOne on a ClusterInfo, that were taken from a
+   cluster object which has been stopped since (the cluster was deleted; a later sync may have created a
+   NEW object under the same name) return the no-ready-endpoints error, whatever Disabled/Healthy flags the
+   stopped endpoints still carry; a request for a cluster that does not exist gets 503.
+   (2) Over all histories and schedules — deletions, re-creations and stale handles included — every
+   endpoint returned by Pop / PickOne / the dispatcher at some moment is, at that moment, enabled in the
+   server list in force of a cluster that exists. *)
+Theorem C03_stale_handle_never_routes : forall rc,
+  (forall s,
+     (forall slot choice c ups, zlook slot (pickers s) = Some (c, ups) -> stopped s c = true ->
+        micro rc s (MPop slot choice) = (s, [ENone]))
+     /\ (forall slot choice c, zlook slot (handles s) = Some c -> stopped s c = true ->
+        micro rc s (MPickOne slot choice) = (s, [ENone]))
+     /\ (forall p choice, cexists s = false -> micro rc s (MRequest p choice) = (s, [E503])))
+  /\ (forall ms m id, let s := run_micro rc init ms in
+        In (EPick id) (snd (micro rc s m)) -> spec_enabled s id = true).
+Proof. intros rc. split; [intros s; apply stale_handle|intros ms m id; apply routes_only_current]. Qed.
+Print Assumptions C03_stale_handle_never_routes.
 
 (* The only step that contacts an upstream is the dispatcher's, and it contacts the endpoint Pop returned. *)
 Theorem C03_contacted_is_picked : forall rc s m id,
@@ -129,3 +151,22 @@ Example C03_probe_nonvacuous :
   snd (micro true (run_micro true init [MSync [(0, false)] [[]; []]; MTicker 0 0 false]) (MWorker 0 0 false)) = [EProbe 0]
   /\ snd (micro true (run_micro true init stray_witness) (MWorker 0 0 true)) = [].
 Proof. vm_compute. split; reflexivity. Qed.
+
+(* stale handles are really there: a picker (slot 0) and a ClusterInfo (slot 1) are taken while endpoint 0
+   is healthy; both yield endpoint 0; the cluster is deleted: both yield the error although the stopped
+   endpoint is still in the old object's map with Healthy = true; the cluster is re-created (new object,
+   endpoint 0 healthy again): the stale handles still yield the error, a fresh picker yields endpoint 0 *)
+Definition stale_demo : list mstep :=
+  [ MSync [(0, false)] [[]; []]; MTicker 0 0 false; MWorker 0 0 false; MProbeDone 0 0 POk;
+    MMatch 2 0; MHold 1 ].
+Example C03_stale_handle_nonvacuous :
+  let s1 := run_micro true init stale_demo in
+  let s2 := run_micro true s1 [MDelete] in
+  let s3 := run_micro true s2 [MSync [(0, false)] [[]; []]; MTicker 1 0 false; MWorker 1 0 false; MProbeDone 1 0 POk; MMatch 2 5] in
+  snd (micro true s1 (MPop 0 0)) = [EPick 0] /\ snd (micro true s1 (MPickOne 1 0)) = [EPick 0]
+  /\ snd (micro true s2 (MPop 0 0)) = [ENone] /\ snd (micro true s2 (MPickOne 1 0)) = [ENone]
+  /\ snd (micro true s2 (MRequest 2 0)) = [E503]
+  /\ map (fun i => (live i, healthy i, icl i)) (incs s2) = [(true, true, 1)]
+  /\ snd (micro true s3 (MPop 0 0)) = [ENone] /\ snd (micro true s3 (MPickOne 1 0)) = [ENone]
+  /\ snd (micro true s3 (MPop 5 0)) = [EPick 0] /\ snd (micro true s3 (MRequest 2 0)) = [EPick 0; EContact 0].
+Proof. vm_compute. repeat split; reflexivity. Qed.
